@@ -278,6 +278,7 @@ def mk_forest(lang, n, part, nparts, rot):
     else:
         check = mk_css(5, C.RULE, C.RULE, rot)['check']
         docs = [C.build(forest.css_kinds(w, rot, C), rot, stmts=True) for w in words]
+        docs += [C.build(ks, r, stmts=True) for r in (0, 1) for i, ks in enumerate(C.pool_family()) if i % nparts == part]
 
     def harness(wrong):
         def h(i: int, pos: int):
